@@ -19,6 +19,7 @@ Families
                        in every position, implications with other antecedents, nested/parenthesised disjunctions,
                        conjunctions of two and three constraints, negated constraints); instances satisfy the
                        invariant through EVERY disjunct (over-long value + legacy flag, ...).
+``cp-forms``           the same shapes around a constraint on ``self`` of a constrained primitive (length / pattern).
 ``bounds``             several bounds of the same direction on one value (own class, constrained primitive, list,
                        ancestor + descendant), instances exactly ON every bound.
 ``cp-chains``          chains of three and four constrained primitives in EVERY declaration order (descendant first),
@@ -271,6 +272,45 @@ def n_forms_chunks(per_model: int = 25) -> int:
     return (n + per_model - 1) // per_model
 
 
+# --------------------------------------------------------------------------- shapes on ``self`` of a constrained primitive
+
+CP_FORMS = [
+    "{K}", "{K} or {K2}", "{K2} or {K}", "{K} or {K2} or {K3}", "not ({K})", "not (not ({K}))", "{K} and {K3}",
+    "{K} and {K3} and {K4}", "not ({K}) or {K3}", "not ({K3}) or {K}", "({K} or {K2}) and {K3}",
+]
+
+
+def cp_forms_family() -> Any:
+    """Constrained primitives whose invariants wrap a constraint on ``self`` in every shape (no flags available here):
+    K = ``len(self) <= 4``, K2 = ``len(self) >= 8``, K3 = digits only, K4 = ``len(self) >= 2``; and the same with the
+    pattern as the wrapped constraint."""
+    fns = [PatternFn.simple("matches_digits", "^[0-9]*$"), PatternFn.simple("matches_hex", "^[0-9a-f]*$")]
+    subst = [
+        dict(K="len(self) <= 4", K2="len(self) >= 8", K3="matches_digits(self)", K4="len(self) >= 2"),
+        dict(K="matches_digits(self)", K2="matches_hex(self)", K3="len(self) <= 4", K4="2 <= len(self)"),
+    ]
+    cps: List[Any] = []
+    props: List[Any] = []
+    names: List[str] = []
+    for i, shape in enumerate(CP_FORMS):
+        for j, sub in enumerate(subst):
+            n = f"Cpf_{i}_{j}"
+            cps.append(ConstrainedPrimitive(n, "str", invariants=[inv(f"{shape}", shape.format(**sub))]))
+            names.append(n)
+    domain = ["12", "", "1", "1234", "12345", "12345678", "123456789", "ab", "abcdef12", "abcdefgh", "xy", "a rather long text", "12ab", "wxyzwxyzw"]
+    classes = []
+    specs: List[Spec] = []
+    for n in names:
+        cname = "Holder_" + n.lower()
+        classes.append(Class(cname, props=[Prop("value", Ref(n)), Prop("more", ListOf(Ref(n)))], description=f"Hold {n}."))
+        for k, v in enumerate(domain):
+            specs.append(Spec(cname, {"value": v, "more": [v, domain[(k + 3) % len(domain)]]}, mutate=False))
+            specs.append(Spec(cname, {"value": v, "more": []}, mutate=(k == 0)))
+    m = MM(classes=classes, constrained_primitives=cps, verification_functions=fns, version="V1", xml_namespace="urn:aasv:cpforms")
+    m._explicit = specs  # type: ignore[attr-defined]
+    return m
+
+
 # --------------------------------------------------------------------------- several bounds of one direction
 
 
@@ -412,6 +452,7 @@ def families() -> Iterator[Tuple[str, Any]]:
     yield "astral", astral_family()
     for k in range(n_forms_chunks()):
         yield f"forms-{k}", forms_family(k)
+    yield "cp-forms", cp_forms_family()
     yield "bounds", bounds_family()
     yield "cp-chains", cp_chains_family()
     for label, m in class_chains_family():
